@@ -446,6 +446,9 @@ impl Check for Check14 {
         }
         out.into_iter().map(|x| serde_json::to_value(x).unwrap()).collect()
     }
+    fn wall_limit_s(&self) -> u64 {
+        1200
+    }
     fn rule(&self) -> String {
         "E1 (stub scheduler): seeded thread count 1..64, per-split stolen bits following rayon's LengthSplitter policy (optionally arbitrary split points), and a seeded topological execution order of leaf and reduce tasks, for (a) ParallelSumMultithreaded<TracingMul>::eval_poly vs ParallelSum<Mul>::eval_poly over 1..70 chunks and (b) Prio3SumVec/Histogram/MultihotCountVec-Multithreaded shard_with_random + verify_init at every aggregator vs the serial types; distinct = distinct (configuration, realised task trace, realised chunk order) signatures".into()
     }
